@@ -210,6 +210,86 @@ func tableGet(tbl map[string]string, key string) (string, bool) {
 	return "", false
 }
 
+// tableGetMoved: tableGet, then a second chance for a site that MOVED between two functions of one
+// package that call each other (a helper extracted or inlined, a method turned into a function): an
+// entry with the same expression - up to local names and a dropped or added receiver qualifier - whose
+// own function no longer contains the site, or is caller/callee of the new one, carries its reason over.
+func tableGetMoved(c *core.Ctx, tbl map[string]string, key string) (string, bool) {
+	if r, ok := tableGet(tbl, key); ok {
+		return r, true
+	}
+	split := func(k string) (string, string) {
+		i := strings.Index(k, ":")
+		if i < 0 {
+			return k, ""
+		}
+		return k[:i], k[i+1:]
+	}
+	pkgOf := func(fn string) string {
+		fn = strings.TrimSuffix(fn, "$1")
+		fn = strings.TrimPrefix(strings.TrimPrefix(fn, "("), "*")
+		if i := strings.Index(fn, ")"); i >= 0 {
+			fn = fn[:i]
+		}
+		if i := strings.LastIndex(fn, "."); i >= 0 {
+			return fn[:i]
+		}
+		return fn
+	}
+	bare := func(fn string) string {
+		fn = strings.TrimSuffix(fn, "$1")
+		if i := strings.LastIndex(fn, "."); i >= 0 {
+			return fn[i+1:]
+		}
+		return fn
+	}
+	unqual := regexp.MustCompile(`\b[a-z][a-zA-Z0-9]{0,3}\.`)
+	norm := func(e string) string { return unqual.ReplaceAllString(e, "") }
+	fn, expr := split(key)
+	if expr == "" {
+		return "", false
+	}
+	var keys []string
+	for k := range tbl {
+		keys = append(keys, k)
+	}
+	sort.Strings(keys)
+	for _, k := range keys {
+		kfn, kexpr := split(k)
+		if kfn == fn || pkgOf(kfn) != pkgOf(fn) || kexpr == "" {
+			continue
+		}
+		if !(alphaEq("F:"+kexpr, "F:"+expr) || alphaEq("F:"+norm(kexpr), "F:"+norm(expr))) {
+			continue
+		}
+		// related: the old function is gone, or one calls the other
+		old := c.P.FindDecl(strings.TrimSuffix(kfn, "$1"))
+		related := old == nil
+		if !related {
+			for _, cs := range c.P.Calls() {
+				if cs.Decl == nil {
+					continue
+				}
+				callee, ok := core.Callee(cs.Pkg, cs.Call).(*types.Func)
+				if !ok {
+					continue
+				}
+				from := cs.Decl.Name.Name
+				if (from == bare(kfn) && callee.Name() == bare(fn)) || (from == bare(fn) && callee.Name() == bare(kfn)) {
+					if core.Rel(cs.Pkg.PkgPath) == pkgOf(fn) {
+						related = true
+						break
+					}
+				}
+			}
+		}
+		if related {
+			return tbl[k] + " [site moved from " + kfn + "]", true
+		}
+	}
+	return "", false
+}
+
 // helperBodies: the body of a function and the bodies of the functions of the same package it calls
 // (to the given depth). Rules that look for a construct "in F" look here, so that the construct may
 // be moved into a helper (or a helper inlined) without changing the verdict.
